@@ -1,33 +1,682 @@
-"""C04 - modified / valid / last-modified-time tell the truth for producers and consumers."""
+"""C04 - modified / valid / last-modified-time tell the truth for producers and consumers.
+
+Two correspondence streams:
+  engine-probe  scalar TS[int] graphs with probe nodes through hgv_engine (shared engine plug-in, unchanged)
+  track         REAL standalone TSOutput objects of structured schemas (TS, TSB, fixed TSL, nestings) with 1-2
+                REAL TSInput objects bound by bind_output, driven by hgv_track with explicit evaluation times:
+                leaf writes, invalidation of a leaf / a child / a whole container, dumps of every position through
+                the output view and every input view, in the write cycle and in later quiet cycles.
+"""
+import itertools
+import os
+import re
+
 import engine_common as ec
 import engine_plugin as ep
+from vlib import Case, Stream, BUILD, VERIF, model_cmd
 
 ID = "C04"
 LEAN_MODULES = ['HgVerif.Props.C04', 'HgVerif.Model.Engine', 'HgVerif.Model.Extracted']
-THEOREMS = ['HgVerif.Tracking.write_spec', 'HgVerif.Tracking.write_coalesces', 'HgVerif.Tracking.write_monotone', 'HgVerif.Tracking.child_modified_parent_modified', 'HgVerif.Tracking.modified_implies_valid', 'HgVerif.Tracking.invalidate_leaf_spec', 'HgVerif.Tracking.markUp_spec']
-CXX_TARGETS = ['hgv_engine']
+_P = 'HgVerif.Tracking.'
+THEOREMS = [_P + n for n in [
+    # writes (unchanged)
+    'write_spec', 'write_coalesces', 'write_monotone', 'child_modified_parent_modified', 'modified_implies_valid',
+    'invalidate_leaf_spec', 'markUp_spec',
+    # observers notified once (record_modified coalesces)
+    'markUpN_spec', 'write_notifies_once',
+    # the general invalidate of base_view.cpp, on every tree
+    'invalidateF_spec', 'invalidate_spec', 'invalidate_invalid_id', 'invalidate_leaf_eq', 'invalidate_twice',
+    # every history with non-decreasing times
+    'apply_spec', 'run_inv', 'run_spec_refines',
+    # the consumer side (link record of a bound TSInput)
+    'linkBind_inv', 'link_step_inv', 'link_inv_run', 'consumer_eq_producer_below_root', 'consumer_eq_producer_valid_root',
+    'consumer_differs_after_root_invalidate',
+]]
+CXX_TARGETS = ['hgv_engine', 'hgv_track']
 USES_EXTRACT = True
-RULE = 'flat graphs with 1-3 probe nodes: a probe wakes itself every smallest step and logs value/modified/valid/last-modified-time of a PASSIVE input (so it observes cycles in which the producer did not write); several consumers per output; non-trivial = the probed output is seen both modified and unmodified-but-valid; distinct by program text'
-TRUSTED = ['collection-shaped positions (TSB/TSL/TSD children) are exercised on the real code by the C05/C20 drivers; the engine stream covers TS[int] endpoints']
-ASSUMPTIONS = ["cycle times non-decreasing; a write's time is the current cycle time"]
-TECHNIQUE = 'Lean 4 proof (invariant lmt child <= lmt parent <= now through arbitrary write/invalidate histories on arbitrary trees) + differential correspondence with probe nodes + dataflow reference monitor'
-LEVEL_TEXT = 'Kernel-checked for every tree of time-series positions and every write history: a write makes exactly the written position and its ancestors modified at the cycle time (parents modified whenever a child is, and only then), repeated writes in a cycle coalesce, last-modified-times never move backwards, invalidation makes the position invalid and unmodified while its ancestors are modified. On the real code, probe nodes log the four observables of bound inputs in every cycle and must agree with the model and with the dataflow reading.'
-LEVEL_NOTE = 'Trusted: Lean kernel; tracking model tied to types.cpp/base_view.cpp by the probe correspondence; inputs-as-projections is checked, not proved.'
+RULE = ('engine-probe: flat graphs with 1-3 probe nodes: a probe wakes itself every smallest step and logs '
+        'value/modified/valid/last-modified-time of a PASSIVE input (so it observes cycles in which the producer did not '
+        'write); several consumers per output; non-trivial = the probed output is seen both modified and '
+        'unmodified-but-valid; distinct by program text.  '
+        'track: histories of leaf writes and invalidations (leaf / child / whole container) with explicit non-decreasing '
+        'evaluation times over real TSOutput objects of TS<Int>, TSB{a,b}, TSL<TS,2>, TSB{a,b:TSB{c,d}}, TSL<TSB{a,b},2> with '
+        '1-2 bound TSInputs (the second possibly bound in a later cycle); every dump lists valid/modified/lmt(/value) of '
+        'EVERY position through the output view and through every bound input view.  Reference, decided from the op list '
+        'alone (last write per leaf, last effective invalidation per position): a position is WIPED by the last effective '
+        'invalidation of itself or of a container holding it; it is VALID iff some leaf at or below it was written after '
+        'that wipe - i.e. a container is valid from the first write to any descendant until an explicit invalidation of '
+        'the container itself or of a container holding it; invalidating its children one by one does NOT invalidate it '
+        '(code: fixed_has_current_value = own last_modified_time != MIN_DT; the developer guide states "valid() is true '
+        'when any child is valid" only for non-peered input prefixes and the user guide only says when a collection '
+        'BECOMES valid); LMT = 0 when not valid, else the time of the latest write at/below it or effective '
+        'invalidation strictly below it since the wipe (an invalidated child makes its parent tick); MODIFIED at t iff '
+        'valid and lmt = t; an invalidation is effective iff the position was valid, and is the identity otherwise.  '
+        'Relations checked on each dump alone: lmt child <= lmt parent <= t, child valid/modified => parent '
+        'valid/modified, not valid => lmt = MIN_DT, a fixed-shape parent modified at t => a child modified at t or a '
+        'descendant invalidated at t.  Observer notifications (a counting Notifiable subscribed at every position): a '
+        'write notifies, once each, exactly the positions that become modified by it (an already modified parent is not '
+        'told again); an invalidation notifies exactly the positions it invalidates and the ancestors that become modified '
+        '(a container at most twice).  output view = every bound input view on all four observables; the one systematic '
+        'difference (root of an invalidated target: input lmt/modified follow the link record) is reported as '
+        '[C04-consumer] separately from every other message.  non-trivial = an effective invalidation observed by a later '
+        'dump, or a dump in which some valid position is modified and another is not; distinct by sha1 of the op list')
+TRUSTED = ['TSS/TSD/TSW positions are exercised on the real code by the C05/C20 drivers; the track stream covers TS, TSB and '
+           'fixed TSL (any nesting); the engine stream covers TS[int] endpoints in running graphs',
+           'type-erased Value copy of Int leaves; TypeRegistry interning of the generated schemas']
+ASSUMPTIONS = ["cycle times non-decreasing; a write's time is the current cycle time",
+               'inputs are peered TSInputs bound with bind_output at the root of the output (REF / sampled rebinding is C13)']
+TECHNIQUE = ('Lean 4 proof (invariant lmt child <= lmt parent <= now through arbitrary write/invalidate histories on arbitrary '
+             'finite trees; the recursive invalidate of base_view.cpp refined to "subtree := MIN_DT, proper ancestors := t"; link '
+             'record invariant for bound inputs) + differential correspondence (probe nodes in graphs; standalone '
+             'TSOutput/TSInput objects of structured schemas) + independent reference monitors')
+LEVEL_TEXT = ('Kernel-checked for every tree of time-series positions and every write/invalidate history with non-decreasing '
+              'times: a write makes exactly the written position and its ancestors modified at the cycle time (parents modified '
+              'whenever a child is, and only then) and notifies the observers of exactly the positions that become modified, once '
+              'each; repeated writes in a cycle coalesce, last-modified-times never move '
+              'backwards except by invalidation; invalidate(p) - modelled exactly as coded: children first, then notify, then '
+              'reset - makes p and ALL its descendants invalid and unmodified, every proper ancestor modified at that time, '
+              'leaves everything else untouched, keeps lmt child <= lmt parent <= now, and is the identity on an invalid '
+              'position. A bound input reads the producer\'s records everywhere below the target root, and at the root '
+              'whenever the root is valid; after an invalidation of the whole target the input root keeps the invalidation '
+              'time (proved as consumer_differs_after_root_invalidate; finding C04-consumer). On the real code, probe nodes '
+              'and the hgv_track driver (real TSOutput + bound TSInputs of TS/TSB/TSL nestings) must agree with the model '
+              'and with an independent reference on every position in every dumped cycle.')
+LEVEL_NOTE = ('Trusted: Lean kernel; tracking model tied to types.cpp/base_view.cpp/ts_input base_view.cpp by the two '
+              'correspondence streams. The link record of a bound input is modelled from target_link.cpp (notify -> '
+              'record_target_modified); REF-blended and sampled rebinding are C13. TSS/TSD/TSW children are not in the '
+              'track stream.')
+
+SCHEMAS = ['TS<Int>', 'TSB{a:TS<Int>,b:TS<Int>}', 'TSL<TS<Int>,2>',
+           'TSB{a:TS<Int>,b:TSB{c:TS<Int>,d:TS<Int>}}', 'TSL<TSB{a:TS<Int>,b:TS<Int>},2>']
+TSB2 = SCHEMAS[3]
+
+
+# ---------------------------------------------------------------------------------------------
+# schema text -> positions (pre-order)
+
+class Pos:
+    def __init__(self, path, parent, leaf):
+        self.path, self.parent, self.leaf, self.kids = path, parent, leaf, []
+
+
+def parse_schema(text):
+    """returns the list of positions in pre-order (index = position), or None when malformed"""
+    out = []
+    i = [0]
+
+    def eat(lit):
+        if text.startswith(lit, i[0]):
+            i[0] += len(lit)
+            return True
+        return False
+
+    def rec(parent, path, depth):
+        if depth > 4:
+            raise ValueError
+        me = len(out)
+        p = Pos(path, parent, True)
+        out.append(p)
+        if parent is not None:
+            out[parent].kids.append(me)
+        if eat('TS<Int>'):
+            return
+        p.leaf = False
+        sub = lambda k: (str(k) if path == '.' else path + '.' + str(k))
+        if eat('TSB{'):
+            k, names = 0, set()
+            while True:
+                m = re.match(r'[A-Za-z0-9]+', text[i[0]:])
+                if not m or m.group(0) in names:
+                    raise ValueError
+                names.add(m.group(0))
+                i[0] += len(m.group(0))
+                if not eat(':'):
+                    raise ValueError
+                rec(me, sub(k), depth + 1)
+                k += 1
+                if eat(','):
+                    continue
+                if eat('}'):
+                    return
+                raise ValueError
+        if eat('TSL<'):
+            start = i[0]
+            probe = len(out)
+            rec(me, sub(0), depth + 1)
+            end = i[0]
+            if not eat(','):
+                raise ValueError
+            m = re.match(r'[0-9]{1,2}', text[i[0]:])
+            if not m:
+                raise ValueError
+            i[0] += len(m.group(0))
+            n = int(m.group(0))
+            if not eat('>') or n == 0 or n > 8:
+                raise ValueError
+            after = i[0]
+            for k in range(1, n):
+                i[0] = start
+                rec(me, sub(k), depth + 1)
+                assert i[0] == end
+            i[0] = after
+            return
+        raise ValueError
+
+    try:
+        rec(None, '.', 0)
+    except (ValueError, AssertionError):
+        return None
+    if i[0] != len(text) or len(out) > 64:
+        return None
+    return out
+
+
+def _under(pos, p):
+    """positions at or below p"""
+    res, todo = [], [p]
+    while todo:
+        x = todo.pop()
+        res.append(x)
+        todo.extend(pos[x].kids)
+    return res
+
+
+def _anc_self(pos, p):
+    res = []
+    while p is not None:
+        res.append(p)
+        p = pos[p].parent
+    return res
+
+
+# ---------------------------------------------------------------------------------------------
+# generators
+
+def gen_track(rng, idx, maxops):
+    schema = rng.choice(SCHEMAS + SCHEMAS[1:] + SCHEMAS[3:])
+    pos = parse_schema(schema)
+    leaves = [p for p in range(len(pos)) if pos[p].leaf]
+    conts = [p for p in range(1, len(pos)) if not pos[p].leaf]
+    k = rng.choice([1, 2, 2])
+    t = rng.randint(1, 3)
+    lines = ['case %d' % idx, 'schema %s %d' % (schema, k)]
+    unbound = list(range(k))
+    if rng.random() < 0.85:
+        lines.append('bind 0 %d' % t)
+        unbound.remove(0)
+    if k == 2 and rng.random() < 0.5:
+        lines.append('bind 1 %d' % t)
+        unbound.remove(1)
+    profile = rng.choice(['mixed', 'mixed', 'inv-heavy', 'write-heavy', 'root-inv'])
+    p_inv = {'mixed': 0.3, 'inv-heavy': 0.55, 'write-heavy': 0.1, 'root-inv': 0.4}[profile]
+    recent, just_invalidated = [], []
+    n_ops = 0
+    while n_ops < maxops:
+        # one cycle at time t: 0-4 operations
+        for _ in range(rng.choice([0, 1, 1, 2, 2, 3, 4])):
+            if rng.random() < p_inv:
+                r = rng.random()
+                if profile == 'root-inv' and r < 0.6 or r < 0.25 or not (leaves and len(pos) > 1):
+                    p = 0
+                elif conts and r < 0.5:
+                    p = rng.choice(conts)
+                elif recent and r < 0.8:
+                    p = rng.choice(recent[-3:])          # a leaf written recently (valid)
+                else:
+                    p = rng.choice(leaves)
+                lines.append('inv %s %d' % (pos[p].path, t))
+                just_invalidated.append(p)
+            else:
+                if just_invalidated and rng.random() < 0.5:   # re-write at/below a position invalidated before
+                    q = rng.choice(just_invalidated[-2:])
+                    cand = [x for x in _under(pos, q) if pos[x].leaf]
+                    p = rng.choice(cand)
+                elif recent and rng.random() < 0.4:          # several writes to one leaf in a cycle / across cycles
+                    p = rng.choice(recent[-2:])
+                else:
+                    p = rng.choice(leaves)
+                lines.append('w %s %d %d' % (pos[p].path, t, rng.randint(-9, 99)))
+                recent.append(p)
+            n_ops += 1
+            if rng.random() < 0.15:
+                lines.append('dump %d' % t)               # mid-cycle observation
+        if unbound and rng.random() < 0.35:
+            i = unbound.pop(0)
+            lines.append('bind %d %d' % (i, t))            # an input that appears in a later cycle
+        if rng.random() < 0.92:
+            lines.append('dump %d' % t)
+        # quiet cycles (gaps): nothing is written, the flags must fall back
+        for _ in range(rng.choice([0, 0, 1, 1, 2])):
+            t += rng.choice([1, 1, 2, 5])
+            lines.append('dump %d' % t)
+        t += rng.choice([1, 1, 1, 2, 3])
+    lines.append('dump %d' % t)
+    lines.append('dump %d' % (t + 4))
+    return Case(lines, {'profile': profile})
+
+
+def gen_malformed(rng, idx):
+    """a short valid history with a few malformed lines: both drivers must answer bad-op / err and carry on"""
+    schema = rng.choice(SCHEMAS[1:])
+    lines = ['case %d' % idx, 'schema %s 1' % schema, 'bind 0 1', 'w 0 1 5' if schema != SCHEMAS[4] else 'w 0.0 1 5', 'dump 1']
+    bad = ['w . 2 1', 'w 7 2 1', 'inv 9.9 2', 'frob 1', 'w 0 x 1', 'dump', 'bind 0 2', 'bind 3 2', 'inv . 0',
+           'schema TSB{a:TS<Int>,a:TS<Int>} 1', 'schema TSL<TS<Int>,0> 1', 'schema TS<Int> 3', 'schema TS<Float> 1']
+    rng.shuffle(bad)
+    lines += bad[:4]
+    lines += ['inv . 2', 'dump 2', 'dump 3']
+    return Case(lines, {'profile': 'malformed'})
+
+
+def exhaustive_tsb2(max_ops, start):
+    """every history of <= max_ops operations on the 2-level TSB: each operation is a write to one of the three
+    leaves or an invalidation of one of the five positions, in the current cycle or in a new one; a dump after every
+    operation and one in a final quiet cycle"""
+    pos = parse_schema(TSB2)
+    leaves = [p for p in range(len(pos)) if pos[p].leaf]
+    alphabet = [('w', p) for p in leaves] + [('inv', p) for p in range(len(pos))]
+    steps = [(a, new) for a in alphabet for new in (False, True)]
+    cases = []
+    idx = start
+    for n in range(1, max_ops + 1):
+        for seq in itertools.product(steps, repeat=n):
+            if not seq[0][1]:
+                continue                                   # the first operation opens the first cycle
+            t = 0
+            lines = ['case %d' % idx, 'schema %s 1' % TSB2, 'bind 0 1']
+            for j, ((kind, p), new) in enumerate(seq):
+                if new:
+                    t += 1
+                if kind == 'w':
+                    lines.append('w %s %d %d' % (pos[p].path, t, 10 * (j + 1) + p))
+                else:
+                    lines.append('inv %s %d' % (pos[p].path, t))
+                lines.append('dump %d' % t)
+            lines.append('dump %d' % (t + 1))
+            cases.append(Case(lines, {'profile': 'exhaustive'}))
+            idx += 1
+    return cases
+
+
+def _corpus():
+    cdir = os.path.join(VERIF, 'corpus', 'C04')
+    out = []
+    if os.path.isdir(cdir):
+        for f in sorted(os.listdir(cdir)):
+            lines = [l.rstrip('\n') for l in open(os.path.join(cdir, f)) if l.strip()]
+            out.append(Case(lines, {'corpus': f, 'profile': 'corpus'}))
+    return out
 
 
 def streams(rng, tier, seed):
-    n = 120 if tier == "quick" else 3000
+    quick = tier == 'quick'
+    n = 120 if quick else 3000
     progs = [ec.gen_probe(rng) for _ in range(n)]
-    return [ec.engine_stream("engine-probe", progs)]
+    nt = 420 if quick else 9000
+    track = _corpus()
+    track += [gen_track(rng, i, rng.choice([6, 12, 25]) if quick else rng.choice([8, 20, 45])) for i in range(nt)]
+    track += [gen_malformed(rng, nt + i) for i in range(12 if quick else 120)]
+    track += exhaustive_tsb2(3 if quick else 4, len(track) + 100)
+    return [ec.engine_stream('engine-probe', progs),
+            Stream('track', [os.path.join(BUILD, 'hgv_track')], model_cmd('C04'), track)]
 
 
-monitor = ep.monitor_for(ID)
-features = ep.features
-alarm_filter = ep.alarm_filter
+# ---------------------------------------------------------------------------------------------
+# monitor of the track stream: the property decided on the implementation's dumps alone
+
+class _Res:
+    def __init__(self):
+        self.bad, self.finding, self.feats, self.nontrivial = [], [], set(), False
+
+
+_POS = re.compile(r'^([0-9.]+)=([01])([01])/(\d+)/(-|-?\d+)$')
+
+
+def _parse_view(text):
+    """' .=11/3/- 0=10/1/10' -> {path: (valid, modified, lmt, value)}"""
+    out = {}
+    for w in text.split():
+        m = _POS.match(w)
+        if not m:
+            raise ValueError('unreadable position %r' % w)
+        out[m.group(1)] = (int(m.group(2)), int(m.group(3)), int(m.group(4)), m.group(5))
+    return out
+
+
+def _parse_notes(text):
+    """' .*1 1*2' -> {path: count}"""
+    out = {}
+    for w in text.split():
+        m = re.match(r'^([0-9.]+)\*(\d+)$', w)
+        if not m or m.group(1) in out:
+            raise ValueError('unreadable notification note %r' % w)
+        out[m.group(1)] = int(m.group(2))
+    return out
+
+
+def _mon_track(case, out):
+    res = _Res()
+    if len(out) != len(case.lines):
+        res.bad.append('[C04-trace] %d output lines for %d input lines' % (len(out), len(case.lines)))
+        return res
+    pos = None
+    wr, inval = {}, {}            # leaf -> (seq, t, v) ; position -> (seq, t) of the last EFFECTIVE invalidation
+    seq = 0
+    bound = []
+    last_t = 0
+    consumer_hits = 0
+    effective_seen_at = None      # time of an effective invalidation not yet followed by a later dump
+
+    def bad(cls, msg):
+        if len(res.bad) < 6:
+            res.bad.append('[C04-%s] %s' % (cls, msg))
+
+    def cut(p):
+        return max([inval[a][0] for a in _anc_self(pos, p) if a in inval] or [0])
+
+    def ref(p, t):
+        """(valid, modified, lmt, value) of position p when read at time t"""
+        c = cut(p)
+        below = _under(pos, p)
+        times = [wr[l][1] for l in below if l in wr and wr[l][0] > c]
+        if not times:
+            return (0, 0, 0, '-')
+        times += [inval[q][1] for q in below if q != p and q in inval and inval[q][0] > c]
+        lmt = max(times)
+        val = str(wr[p][2]) if pos[p].leaf else '-'
+        return (1, 1 if (t != 0 and lmt == t) else 0, lmt, val)
+
+    for ln, o in zip(case.lines, out):
+        w = ln.split()
+        if not w:
+            continue
+        op = w[0]
+        if op == 'case':
+            if o != ln:
+                bad('trace', 'case line not echoed: %r' % o)
+            continue
+        if op == 'schema' and len(w) == 3:
+            new = parse_schema(w[1])
+            if new is None or w[2] not in ('1', '2'):
+                if o != 'bad-op':
+                    bad('trace', 'malformed schema line answered %r' % o)
+                continue
+            pos = new
+            wr, inval, seq = {}, {}, 0
+            bound = [False] * int(w[2])
+            if o != 'ok n=%d' % len(pos):
+                bad('trace', 'schema answered %r, expected ok n=%d' % (o, len(pos)))
+            res.feats.add('schema:' + w[1])
+            res.feats.add('inputs:' + w[2])
+            continue
+        if pos is None:
+            if o != 'bad-op':
+                bad('trace', 'op before schema answered %r' % o)
+            continue
+        paths = {pos[p].path: p for p in range(len(pos))}
+        wellformed_t = lambda s: s.isdigit() and len(s) <= 15
+        if op == 'bind' and len(w) == 3 and w[1].isdigit() and wellformed_t(w[2]) and int(w[1]) < len(bound) and not bound[int(w[1])]:
+            if o != 'ok':
+                bad('trace', '%r answered %r' % (ln, o))
+            else:
+                bound[int(w[1])] = True
+                if seq > 0:
+                    res.feats.add('late-bind')
+            continue
+        if op == 'w' and len(w) == 4 and w[1] in paths and pos[paths[w[1]]].leaf and wellformed_t(w[2]) and re.match(r'^-?\d{1,15}$', w[3]):
+            t = int(w[2])
+            if t == 0:
+                if o != 'err:invalid-arg':
+                    bad('trace', 'write at MIN_DT answered %r' % o)
+                continue
+            if not (o == 'ok' or o.startswith('ok ')):
+                bad('trace', '%r answered %r' % (ln, o))
+                continue
+            p = paths[w[1]]
+            if t < last_t:
+                res.feats.add('time-goes-back')
+                return res                      # outside the stated assumption: not judged
+            # observers: exactly the positions that BECOME modified by this write are notified, once each
+            try:
+                got_n = _parse_notes(o[2:])
+            except ValueError as e:
+                bad('trace', str(e))
+                got_n = None
+            if got_n is not None:
+                exp_n = {pos[x].path: 1 for x in _anc_self(pos, p) if not ref(x, t)[1]}
+                if got_n != exp_n:
+                    again = sorted(k for k in got_n if k not in exp_n)
+                    bad('notify', 'a write notified observers other than once per position that becomes modified: %r at t=%d '
+                                  'notified %s, expected %s%s' % (ln, t, got_n, exp_n,
+                                                                 ' (already modified in this cycle: %s)' % again if again else ''))
+                if len(exp_n) < len(_anc_self(pos, p)):
+                    res.feats.add('write-with-already-modified-ancestor')
+            if p in wr and wr[p][1] == t and wr[p][0] > cut(p):
+                res.feats.add('repeated-write-in-cycle')
+            if any(a in inval for a in _anc_self(pos, p)) and not (p in wr and wr[p][0] > cut(p)):
+                res.feats.add('rewrite-after-invalidate')
+            last_t = t
+            seq += 1
+            wr[p] = (seq, t, int(w[3]))
+            continue
+        if op == 'inv' and len(w) == 3 and w[1] in paths and wellformed_t(w[2]):
+            t = int(w[2])
+            if t == 0:
+                if o != 'err:invalid-arg':
+                    bad('trace', 'invalidate at MIN_DT answered %r' % o)
+                continue
+            p = paths[w[1]]
+            if t < last_t:
+                res.feats.add('time-goes-back')
+                return res
+            last_t = t
+            was_valid = ref(p, t)[0]
+            kind = 'root' if p == 0 else 'leaf' if pos[p].leaf else 'child-container'
+            if p != 0 and pos[p].leaf is False:
+                pass
+            if o[:1] != str(was_valid) or not (len(o) == 1 or o[1] == ' '):
+                bad('inv-result', 'invalidate() result differs from the history: %r on a%s valid position answered %r'
+                    % (ln, '' if was_valid else ' not', o))
+            # observers: every position that is invalidated and every ancestor that becomes modified is told (an
+            # invalidated container may be told twice: by its first child's cascade and by its own invalidate), nobody else
+            try:
+                got_n = _parse_notes(o[1:])
+            except ValueError as e:
+                bad('trace', str(e))
+                got_n = None
+            if got_n is not None:
+                exp_set = set()
+                if was_valid:
+                    exp_set = {pos[x].path for x in _under(pos, p) if ref(x, t)[0]}
+                    exp_set |= {pos[y].path for y in _anc_self(pos, p)[1:] if not ref(y, t)[1]}
+                above = {pos[y].path for y in _anc_self(pos, p)[1:]}
+                if set(got_n) != exp_set or any(c > 2 for c in got_n.values()) or any(got_n[k] != 1 for k in got_n if k in above):
+                    bad('notify', 'an invalidation notified the wrong observers: %r at t=%d notified %s, expected the positions %s'
+                        % (ln, t, got_n, sorted(exp_set)))
+            if was_valid:
+                res.feats.add('invalidate:' + kind + ('' if pos[p].leaf else
+                                                   ':with-valid-children' if any(ref(c, t)[0] for c in pos[p].kids) else ':children-invalid'))
+                seq += 1
+                inval[p] = (seq, t)
+                effective_seen_at = t
+            else:
+                res.feats.add('invalidate-noop:' + kind)
+            continue
+        if op == 'dump' and len(w) == 2 and wellformed_t(w[1]):
+            t = int(w[1])
+            if t < last_t:
+                res.feats.add('time-goes-back')
+                return res
+            parts = [x.strip() for x in o.split('|')]
+            if len(parts) != 1 + len(bound) or not parts[0].startswith('o:'):
+                bad('trace', 'dump answered %r' % o[:80])
+                continue
+            try:
+                ov = _parse_view(parts[0][2:])
+            except ValueError as e:
+                bad('trace', str(e))
+                continue
+            if sorted(ov) != sorted(paths):
+                bad('trace', 'dump lists positions %s' % sorted(ov))
+                continue
+            quiet = t > last_t
+            res.feats.add('dump:quiet-cycle' if quiet else 'dump:write-cycle')
+            if effective_seen_at is not None and t > effective_seen_at:
+                res.nontrivial = True
+                res.feats.add('invalidation-observed-in-later-cycle')
+            mods = [p for p in range(len(pos)) if ov[pos[p].path][1]]
+            vals = [p for p in range(len(pos)) if ov[pos[p].path][0]]
+            if mods and len(mods) < len(vals):
+                res.nontrivial = True
+                res.feats.add('dump:some-valid-positions-unmodified')
+            # --- producer side against the reference
+            for p in range(len(pos)):
+                got, exp = ov[pos[p].path], ref(p, t)
+                where = 'position %s at t=%d (after %r)' % (pos[p].path, t, ln)
+                if got[0] != exp[0]:
+                    bad('valid', 'output view disagrees with the write/invalidate history on VALID: %s reads %d, expected %d' % (where, got[0], exp[0]))
+                if got[1] != exp[1]:
+                    bad('modified', 'output view disagrees with the write/invalidate history on MODIFIED: %s reads %d, expected %d' % (where, got[1], exp[1]))
+                if got[2] != exp[2]:
+                    bad('lmt', 'output view disagrees with the write/invalidate history on LAST_MODIFIED_TIME: %s reads %d, expected %d' % (where, got[2], exp[2]))
+                if got[3] != exp[3]:
+                    bad('value', 'output view disagrees with the write/invalidate history on VALUE: %s reads %s, expected %s' % (where, got[3], exp[3]))
+                if not pos[p].leaf and exp[0] and not any(ref(c, t)[0] for c in pos[p].kids):
+                    res.feats.add('observation:valid-container-without-valid-child')
+            # --- relations on the dump alone
+            for p in range(len(pos)):
+                v, m, l, _ = ov[pos[p].path]
+                if l > t and t >= last_t:
+                    bad('parent', 'position %s carries lmt=%d in the future of t=%d' % (pos[p].path, l, t))
+                if m and not v:
+                    bad('parent', 'position %s modified but not valid at t=%d' % (pos[p].path, t))
+                if not v and l != 0:
+                    bad('parent', 'position %s not valid but lmt=%d at t=%d' % (pos[p].path, l, t))
+                if t != 0 and v and m != (1 if l == t else 0):
+                    bad('parent', 'position %s modified=%d with lmt=%d at t=%d' % (pos[p].path, m, l, t))
+                q = pos[p].parent
+                if q is not None:
+                    qv, qm, ql, _ = ov[pos[q].path]
+                    if l > ql or (v and not qv) or (m and not qm):
+                        bad('parent', 'child %s (%d%d/%d) above its parent %s (%d%d/%d) at t=%d'
+                            % (pos[p].path, v, m, l, pos[q].path, qv, qm, ql, t))
+                if not pos[p].leaf and m:
+                    c = cut(p)
+                    child_mod = any(ov[pos[k].path][1] for k in pos[p].kids)
+                    desc_inv = any(x != p and x in inval and inval[x][1] == t and inval[x][0] > c for x in _under(pos, p))
+                    if not child_mod and not desc_inv:
+                        bad('parent', 'fixed-shape parent %s modified at t=%d although no child is and nothing below it '
+                                      'was invalidated in this cycle' % (pos[p].path, t))
+            # --- consumers
+            for i, b in enumerate(bound):
+                part = parts[1 + i]
+                if not part.startswith('i%d:' % i):
+                    bad('trace', 'input %d part unreadable: %r' % (i, part[:40]))
+                    continue
+                body = part[len('i%d:' % i):].strip()
+                if not b:
+                    if body != 'unbound':
+                        bad('trace', 'unbound input %d dumped as %r' % (i, body[:40]))
+                    continue
+                try:
+                    iv = _parse_view(body)
+                except ValueError as e:
+                    bad('trace', str(e))
+                    continue
+                for p in range(len(pos)):
+                    a, c = ov.get(pos[p].path), iv.get(pos[p].path)
+                    if a == c:
+                        continue
+                    root_inv_t = inval[0][1] if 0 in inval else None
+                    if (p == 0 and c is not None and a[0] == 0 and c[0] == 0 and a[3] == c[3] and root_inv_t is not None
+                            and c[2] == root_inv_t and c[1] == (1 if (t != 0 and root_inv_t == t) else 0)):
+                        consumer_hits += 1
+                        if not res.finding:
+                            res.finding.append(
+                                '[C04-consumer] a bound input reads the root of an invalidated target differently from the '
+                                'producer: input %d reads modified=%d lmt=%d at t=%d, the producer modified=%d lmt=%d (the link '
+                                'record keeps the invalidation time: target_link.cpp notify -> record_target_modified, '
+                                'ts_input/base_view.cpp last_modified_time = max(link, data))' % (i, c[1], c[2], t, a[1], a[2]))
+                        continue
+                    bad('io', 'a bound input view differs from the output view: input %d position %s at t=%d reads %s, the producer reads %s' % (i, pos[p].path, t, c, a))
+            continue
+        # anything else is malformed: both drivers must refuse it
+        res.feats.add('malformed-line')
+        if o != 'bad-op':
+            bad('trace', 'malformed line %r answered %r' % (ln, o))
+    if consumer_hits:
+        res.feats.add('consumer-root-differs')
+    return res
+
+
+_last = [None, None, None]      # monitor / features / nontrivial are asked about the same (case, trace) in a row
+
+
+def _run_track(case, out):
+    if _last[0] is case and _last[1] == out:
+        return _last[2]
+    try:
+        res = _mon_track(case, out)
+    except Exception as e:      # a crashed / truncated implementation trace
+        res = _Res()
+        res.bad.append('[C04-trace] implementation trace unreadable: %s' % e)
+    _last[0], _last[1], _last[2] = case, list(out), res
+    return res
+
+
+_engine_monitor = ep.monitor_for(ID)
+
+
+def monitor(stream, case, out):
+    if stream != 'track':
+        return _engine_monitor(stream, case, out)
+    res = _run_track(case, out)
+    # ordinary violations first; the candidate finding [C04-consumer] is listed LAST and is the first message only
+    # when nothing else is wrong, so a known-finding fingerprint anchored at the start can never mask a new violation
+    return res.bad[:3] + res.finding[:1]
+
+
+def features(stream, case, out):
+    if stream != 'track':
+        return ep.features(stream, case, out)
+    res = _run_track(case, out)
+    fs = set('track:' + f for f in res.feats)
+    if 'profile' in case.meta:
+        fs.add('track:profile=' + case.meta['profile'])
+    n = sum(1 for l in case.lines if l.split()[:1] in (['w'], ['inv']))
+    fs.add('track:ops=%s' % ('0-4' if n <= 4 else '5-12' if n <= 12 else '13-25' if n <= 25 else '26+'))
+    return sorted(fs)
 
 
 def nontrivial(stream, case, out):
-    t = ec.trace_of(out)
-    return " P " in " " + t and ("a=11" in t) and ("a=10" in t)
+    if stream != 'track':
+        t = ec.trace_of(out)
+        return " P " in " " + t and ("a=11" in t) and ("a=10" in t)
+    return _run_track(case, out).nontrivial
 
-valid_case = ep.valid_case
+
+def alarm_filter(stream, case, impl_out, model_out):
+    if stream != 'track':
+        return ep.alarm_filter(stream, case, impl_out, model_out)
+    return True, []             # every column of a dump is an observable
+
+
+def valid_case(stream, case, impl_out, model_out):
+    if stream != 'track':
+        return ep.valid_case(stream, case, impl_out, model_out)
+    body = [l.split() for l in case.lines[1:] if l.strip()]
+    if not body or body[0][:1] != ['schema'] or not any(w[0] == 'dump' for w in body):
+        return False
+    for o in (impl_out, model_out):
+        if o is not None and any(('bad-op' in l) or l.startswith('err:') or l.startswith('<') for l in o):
+            return False
+    last = 0
+    for w in body[1:]:
+        if w[0] in ('w', 'inv', 'dump', 'bind'):
+            try:
+                t = int(w[2] if w[0] in ('w', 'inv', 'bind') else w[1])
+            except (ValueError, IndexError):
+                return False
+            if t < last:
+                return False
+            last = t
+    return True
